@@ -405,7 +405,7 @@ theorem node_frozen {vk : String → List String} (vs : List (Visitor σ)) (hvs 
   | zero => intro W n key parent anc path R s sk _ _ h; simp [specNode] at h
   | succ d ih =>
     intro W n key parent anc path R s sk hW hfz h
-    simp only [specNode] at h
+    simp only [specNode, specBody] at h
     have hA := hidle W.s ⟨.enter, n, key, parent, path, anc⟩
     have hM := (parEnter_spec ⟨.enter, n, key, parent, path, anc⟩ vs hvs W.s).2 i v (s, sk) hv hW
     have hpe : parallel vs W.s ⟨.enter, n, key, parent, path, anc⟩ =
@@ -653,7 +653,7 @@ theorem idle_node_unfold {τ : Type} {vk : String → List String} {V : Visitor 
         { s := (V W.s ⟨.enter, n, key, parent, path, anc⟩).2, iters := W.iters + 1, edited := W.edited }
         (vk n.kind) = some (.done W2 []) ∧
       R.w.s = (V W2.s ⟨.leave, n, key, parent, path, anc⟩).2 := by
-  simp only [specNode] at h
+  simp only [specNode, specBody] at h
   have hA := hidle W.s ⟨.enter, n, key, parent, path, anc⟩
   rcases hcall : V W.s ⟨.enter, n, key, parent, path, anc⟩ with ⟨A, MS1⟩
   rw [hcall] at hA h
@@ -700,7 +700,7 @@ theorem node_agree {vk : String → List String} (vs : List (Visitor σ)) (hvs :
     rw [hRs]
     have hF := node_frozen (vk := vk) vs hvs i v hv d
     have hD := node_done (vk := vk) hidle d
-    simp only [specNode] at hr
+    simp only [specNode, specBody] at hr
     have hne := hvi w.s ⟨.enter, n, key, parent, path, anc⟩
     rcases hcv : v w.s ⟨.enter, n, key, parent, path, anc⟩ with ⟨a, s1⟩
     rw [hcv] at hne hr
